@@ -896,6 +896,40 @@ package statedb
 
 // Index constructors (C06): a fresh LPM index starts with an open watch channel, so that a query
 // on a table that was never written still hands out a channel that the first commit closes.
+// The built-in indexes of every table (C04, C09, C07): the revision index is a UNIQUE index keyed
+// by the big-endian image of the object's own revision; the graveyard index is a unique index keyed
+// by the primary key of the dead object; a user index takes its uniqueness from its declaration and
+// its keys from FromObject of the stored object. All start from an empty tree of their own.
+//@ func newRevisionIndex
+//@   property C04 C07 C09
+//@   flag nosafety
+//@   ensures @a-unique-index-on-a-tree-of-its-own fresh(unboxptr(result)) && ptrto(partIndex, unboxptr(result)).partIndexTxn.unique && ptrto(partIndex, unboxptr(result)).partIndexTxn.tx == nil
+//@ func newRevisionIndex$1
+//@   property C04 C07 C09
+//@   flag nosafety
+//@   atcall Uint64@1 requires @keyed-by-the-objects-own-revision $0 == obj.revision
+//@   mustcall Uint64@1 when @always true
+//@   mustcall NewKeySet@1 when @always true
+//@ func newGraveyardIndex
+//@   property C04 C07 C08
+//@   flag nosafety
+//@   ensures @a-unique-index-on-a-tree-of-its-own fresh(unboxptr(result)) && ptrto(partIndex, unboxptr(result)).partIndexTxn.unique && ptrto(partIndex, unboxptr(result)).partIndexTxn.tx == nil
+//@ func newGraveyardIndex$1
+//@   property C04 C07 C08
+//@   flag nosafety
+//@   atcall objectToKey@1 requires @keyed-by-the-primary-key-of-the-dead-object $0 == primaryIndex && $1.revision == obj.revision && $1.data == obj.data
+//@   mustcall objectToKey@1 when @always true
+//@   mustcall NewKeySet@1 when @always true
+//@ func Index.newTableIndex
+//@   property C04 C18
+//@   flag nosafety
+//@   ensures @uniqueness-as-declared fresh(unboxptr(result)) && ptrto(partIndex, unboxptr(result)).partIndexTxn.unique == i.Unique && ptrto(partIndex, unboxptr(result)).partIndexTxn.tx == nil
+//@ func (*deleteTracker).getRevision
+//@   property C07 C08
+//@   pure
+//@   flag nosafety
+//@   mustcall Load@1 when @the-trackers-own-watermark true
+//@   atcall Load@1 requires @the-trackers-own-watermark $0 == addr(dt.revision)
 //@ func NetIPPrefixIndex.newTableIndex
 //@   property C06
 //@   flag nosafety
